@@ -12,7 +12,6 @@ than being added to a project.
 
 
 import base64
-import binascii
 import collections
 import datetime
 import functools
@@ -887,7 +886,8 @@ class PythonPrimitiveToStoneDecoder:
             else:
                 try:
                     ret = base64.b64decode(val)
-                except (TypeError, binascii.Error):
+                except (TypeError, ValueError):
+                    # binascii.Error is a ValueError; non-ASCII text raises a plain ValueError
                     raise bv.ValidationError('invalid base64-encoded bytes')
         elif isinstance(data_type, bv.Void):
             if self.strict and val is not None:
